@@ -4,6 +4,7 @@ set -u
 PATCH="$1"; shift
 cd /repo || exit 2
 if ! git diff --quiet; then echo "/repo has local changes; refusing"; exit 2; fi
+mkdir -p /tmp/mutant-root && cp /verif/known_findings.json /tmp/mutant-root/known_findings.json
 git apply "$PATCH" || { echo "patch does not apply"; exit 2; }
 for id in "$@"; do
   out=$(cd /verif && VERIF_ROOT=/tmp/mutant-root ./check.sh "$id" quick 2>&1)
